@@ -360,6 +360,11 @@ def oracle_c09(cfgl, lines):
             # older version can be the one on disk; freshness is C01's subject)
             if (ver, ln) not in ever.get(k, set()):
                 return (n, f"load of key {k} returned version {ver} ({ln} bytes), which was never stored for it")
+            # and fresh: since a shed write deletes the older copy (F21) nothing but the latest version may be served,
+            # however hard the device is thrashed
+            if truth.get(k) != ver:
+                return (n, f"load of key {k} returned version {ver}, " + ("the key was removed" if truth.get(k) is None else
+                           f"the latest insert is version {truth[k]}") + " (an older copy survived the reuse of disk space)")
         elif name == "crashprobe":
             if "post=HANG" in r or r == "HANG":
                 return (n, "after reopening the device image a write never completes (no clean block is ever produced)")
